@@ -9,7 +9,7 @@ CORR_MODULES = ["Entity.C37Corr"]
 PREFIX = "C37"
 CASE_TYPE = "ent_case"
 HARNESS = "entity"
-KNOWN = {1: "C37-publisher-presentation-mutable", 2: "C37-topic-create-inconsistent", 3: "C37-group-qos-not-announced"}
+KNOWN = {3: "C37-group-qos-not-announced"}
 RULE = ("one case = one scenario on the simulated stack: participants / publishers / subscribers / topics / writers / "
         "readers created with random QoS (entity_factory autoenable on or off at every level, so entities exist both "
         "enabled and not enabled), then 10-40 set_qos / get_qos / enable calls; a new QoS is the current one with one "
@@ -186,7 +186,8 @@ def scenario(r):
             else:
                 d = consistent_fix(r, rnd_eqos(r, "T"), "T")
                 if k > 0.96:
-                    d = make_inconsistent(r, d, "T")     # accepted by the code: known finding
+                    # refused since 3e9f0b1: no proxy; the same name is then created with a consistent QoS
+                    b.ops.append("T %d %d %s" % (p, name, eq_spec(make_inconsistent(r, d, "T"), "T")))
                 b.ops.append("T %d %d %s" % (p, name, eq_spec(d, "T")))
                 b.add("T", d)
     # set the participant qos sometimes (changes autoenable for what follows)
@@ -199,8 +200,10 @@ def scenario(r):
     # topic proxy index -> participant: topics were created participant by participant in order
     ti = 0
     tp = []
+    seen = set()
     for op in b.ops:
-        if op.startswith("T "):
+        if op.startswith("T ") and tuple(op.split()[1:3]) not in seen:
+            seen.add(tuple(op.split()[1:3]))
             tp.append(int(op.split()[1]))
     gp = {}
     gi = {"PUB": 0, "SUB": 0}
@@ -385,10 +388,10 @@ def gen(r, tier):
 
 def corpus():
     return [
-        # D28: presentation of an enabled publisher changes, of an enabled subscriber does not
+        # regression of C37-publisher-presentation-mutable (D28, fixed by 5256dfd): ImmutablePolicy on both
         parse_line("P 0 ; PUB 0 ; sq PUB 0 sc=1 coh=1 ; gq PUB 0 ; SUB 0 ; sq SUB 0 sc=1 ; gq SUB 0 ; sq SUB 0 part=3 ; gq SUB 0"),
-        # create_topic accepts an inconsistent QoS
-        parse_line("P 0 ; T 0 1 hist=5 mspi=3 ; gq T 0 ; T 0 2 ms=1 mspi=5 ; gq T 1 ; sq T 0 hist=5 mspi=3"),
+        # regression of C37-topic-create-inconsistent (fixed by 3e9f0b1): refused, the name stays free
+        parse_line("P 0 ; T 0 1 hist=5 mspi=3 ; T 0 1 hist=5 mspi=5 ; gq T 0 ; T 0 2 ms=1 mspi=5 ; sq T 0 hist=5 mspi=3 ; gq T 0"),
         # discovered QoS follows the accepted QoS of the endpoint; the publisher's does not (known finding)
         parse_line("keepnet ; P 0 ; P 0 ; T 0 1 ; T 1 1 ; PUB 0 ; SUB 1 ; W 0 0 ud=5 ; R 0 1 ud=7 ; settle ; mpd 0 0 ; msd 0 0 ; "
                    "sq W 0 ud=9 dl=1000000000 str=4 ; settle ; mpd 0 0 ; sq R 0 ud=3 sep=5 ; settle ; msd 0 0 ; "
@@ -425,21 +428,23 @@ MANIFEST = {
     "text": ("Machine-checked proof (Coq) over a model of is_consistent / check_immutability of every QoS type (with "
              "the Length, usize-vs-Length and DurationKind orders of the code) and of every create / set_qos / get_qos "
              "path. For ANY state in which the entity exists: set_qos with an inconsistent QoS returns "
-             "InconsistentPolicy, a change of an immutable policy of an enabled writer / reader / topic / subscriber "
-             "returns ImmutablePolicy, in both cases the state is literally unchanged and get_qos returns the previous "
+             "InconsistentPolicy, a change of an immutable policy of an enabled writer / reader / topic / publisher / "
+             "subscriber returns ImmutablePolicy, in both cases the state is literally unchanged and get_qos returns the previous "
              "value; otherwise (consistent, and not enabled or no immutable policy changed) the QoS is accepted and "
-             "get_qos returns exactly it; a writer / reader creation with an inconsistent QoS is refused and adds "
-             "nothing; the code's consistency and immutability tests equal the rules of the DDS specification for all "
-             "in-range values. Two recorded findings: set_qos of an enabled PUBLISHER changes PRESENTATION (no "
-             "immutability check) and create_topic accepts an inconsistent QoS. The model is tied to the code by "
+             "get_qos returns exactly it; a writer / reader / topic creation with an inconsistent QoS is refused and "
+             "adds nothing; the code's consistency and immutability tests equal the rules of the DDS specification for all "
+             "in-range values. One recorded finding concerns the announcement: set_qos of a publisher / subscriber "
+             "is not announced for its existing writers / readers (partition, group_data), checked by the oracle on "
+             "the data discovered by a second participant; a writer's / reader's own accepted QoS is announced. The model is tied to the code by "
              "scenarios of create / set_qos / get_qos / enable with boundary-biased QoS values on the real stack in the "
              "simulator, compared inside Coq; a tracker of the last accepted QoS and of the certainly-enabled state is "
              "the oracle on the implementation's results."),
     "note": ("Trusted: Coq kernel + vm_compute; hand model EntityModel.v (checked by the correspondence run); simulator "
              "harness; the spec predicates of C37Corr.v. Axioms: none. NOT covered: 'announced to remote participants' "
              "is checked by the oracle on the implementation's discovered data only, not proved on the model; set_default_*_qos. Known "
-             "findings C37-publisher-presentation-mutable, C37-topic-create-inconsistent, C37-group-qos-not-announced "
-             "(patches in proposed_fixes/)."),
+             "finding C37-group-qos-not-announced (patch in proposed_fixes/); the former findings "
+             "C37-publisher-presentation-mutable and C37-topic-create-inconsistent were repaired by 5256dfd and 3e9f0b1 "
+             "and are kept as regression scenarios."),
     "technique": "Coq proof (state-independent theorems about every set_qos / create path + equivalence of the code's "
                  "checks with the specification's rules) + differential correspondence on the simulated stack with a "
                  "last-accepted-QoS tracker oracle evaluated in Coq",
